@@ -61,9 +61,10 @@ type c02Resp struct {
 var c02BigIDs = []string{"9007199254740993", "9007199254740992", "9007199254740991", "-9007199254740993", "9223372036854775807", "-9223372036854775808", "1152921504606846977"}
 
 type c02Gen struct {
-	r    *vh.Rand
-	used map[string]bool
-	n    int
+	r        *vh.Rand
+	used     map[string]bool
+	n        int
+	noModern bool // the session batches (pre-2025-06-18): a request that moved it to 2026-07-28 would outlaw its later batches
 }
 
 func (g *c02Gen) freshID() string {
@@ -97,6 +98,9 @@ func (g *c02Gen) freshID() string {
 // c02AnyError: the response must be an error; which code is not checked here (C06 does).
 const c02AnyError = -1
 
+// c02AnyOutcome: exactly one response, result or error.
+const c02AnyOutcome = -2
+
 func (g *c02Gen) call(id string) c02Msg {
 	g.n++
 	r := g.r
@@ -107,7 +111,15 @@ func (g *c02Gen) call(id string) c02Msg {
 		}
 		return c02Msg{Raw: raw + "}", ID: id, Class: class, Want: want}
 	}
-	switch x := r.Intn(26); {
+	x0 := r.Intn(28)
+	if g.noModern && x0 >= 26 {
+		x0 = r.Intn(24)
+	}
+	switch x := x0; {
+	case x >= 26:
+		// complete per-request metadata (clientInfo is optional): answered exactly once, whatever the transport makes of it
+		meta := r.Choose(`"io.modelcontextprotocol/clientCapabilities":{}`, `"io.modelcontextprotocol/clientCapabilities":{},"io.modelcontextprotocol/clientInfo":{"name":"m","version":"1"}`)
+		return mk("meta-ok", c02AnyOutcome, r.Choose("tools/list", "server/discover", "server/discover", "prompts/list"), `{"_meta":{"io.modelcontextprotocol/protocolVersion":"2026-07-28",`+meta+`}}`)
 	case x >= 24:
 		// per-request metadata that cannot be accepted: some error, exactly once, never a crash
 		meta := r.Choose(`"io.modelcontextprotocol/clientCapabilities":null`, `"io.modelcontextprotocol/clientCapabilities":"yes"`,
@@ -151,7 +163,7 @@ func genC02(r *vh.Rand, idx int) c02Spec {
 	s := c02Spec{Transport: []string{"stdio", "stdio", "sse", "http-sse", "http-json"}[r.Intn(5)]}
 	s.Version = r.Choose("2025-03-26", "2025-03-26", "2024-11-05", "2025-06-18", "2025-11-25")
 	batchOK := s.Version <= "2025-03-26" && s.Transport != "sse"
-	g := &c02Gen{r: r, used: map[string]bool{`"init"`: true, `"final-ping"`: true}}
+	g := &c02Gen{r: r, used: map[string]bool{`"init"`: true, `"final-ping"`: true}, noModern: batchOK}
 	n := r.Range(2, 10)
 	for i := 0; i < n; i++ {
 		p := c02Payload{GapMs: r.Intn(4)}
@@ -665,31 +677,34 @@ func decideC02(c *vh.Case, spec c02Spec, resps []c02Resp, stat map[int]int) {
 		for _, r := range rs {
 			gc = append(gc, r.Code)
 		}
-		// an "any error" expectation is satisfied by any non-zero code that no exact expectation claims
-		for i, w := range wc {
-			if w != c02AnyError {
-				continue
-			}
+		// sentinels: "any error" needs a non-zero code, "any outcome" any code, among the responses that
+		// no exact expectation claims
+		{
 			left := append([]int(nil), gc...)
-			for _, w2 := range wc {
-				if w2 != c02AnyError {
-					if k := slices.Index(left, w2); k >= 0 {
+			var exact []int
+			anyErr, anyOut := 0, 0
+			for _, w := range wc {
+				switch w {
+				case c02AnyError:
+					anyErr++
+				case c02AnyOutcome:
+					anyOut++
+				default:
+					exact = append(exact, w)
+					if k := slices.Index(left, w); k >= 0 {
 						left = slices.Delete(left, k, k+1)
 					}
 				}
 			}
-			for _, g := range left {
-				if g != 0 && !slices.Contains(wc, g) {
-					wc[i] = g
-					break
-				}
-			}
-			if wc[i] == c02AnyError {
+			if anyErr+anyOut > 0 && len(left) == anyErr+anyOut {
+				nz := 0
 				for _, g := range left {
 					if g != 0 {
-						wc[i] = g
-						break
+						nz++
 					}
+				}
+				if nz >= anyErr {
+					wc = append(exact, left...) // satisfied: compare as given
 				}
 			}
 		}
